@@ -461,6 +461,7 @@ let parse_apiop (s : string) : apiop =
   if s = "open" then AOpen else if s = "addempty" then AAddEmpty else if s = "addbad" then AAddBad
   else if s = "compactall" then ACompactAll else if s = "expire" then AExpire else if s = "close" then AClose
   else if s = "read" then ARead else if s = "clean" then AClean
+  else if S.length s > 8 && S.sub s 0 8 = "compact(" then ACompactAll
   else if S.length s > 8 && S.sub s 0 8 = "addmulti" then (let (t, a) = arg2 "addmulti" in AAddMulti (t, a))
   else if S.length s > 3 && S.sub s 0 3 = "add" then (let (t, a) = arg2 "add" in AAdd (t, a))
   else failwith ("bad api op " ^ s)
@@ -584,6 +585,7 @@ let model_stack_trace (args0 : string) (impl_evs : event list) : string option =
   (* args0 = "sha,giveup|setup|scripts|schedule" *)
   match S.split_on_char '|' args0 with
   | flags :: _setup :: scripts :: _ ->
+    let scripts_s = scripts in
     let give_up = (match S.split_on_char ',' flags with [_; g] -> g = "1" | _ -> false) in
     let split_ops (sc : string) : string list =
       let buf = Buffer.create 16 and out = ref [] and depth = ref 0 in
@@ -594,7 +596,8 @@ let model_stack_trace (args0 : string) (impl_evs : event list) : string option =
       if Buffer.length buf > 0 then out := Buffer.contents buf :: !out;
       L.rev !out in
     let scripts = L.map (fun sc -> L.map parse_apiop (split_ops sc)) (S.split_on_char ';' scripts) in
-    let modelled = L.for_all (L.for_all (function AAddMulti _ | AClean -> false | _ -> true)) scripts in
+    let modelled = L.for_all (L.for_all (function AAddMulti _ | AClean -> false | _ -> true)) scripts
+                   && not (L.exists (fun sc -> L.exists (fun o -> S.length o > 8 && S.sub o 0 8 = "compact(") (split_ops sc)) (S.split_on_char ';' scripts_s)) in
     if not modelled then None else
     Some (S.concat " " (
       (* initial tables and the size oracle come from the implementation's snapshots *)
@@ -642,6 +645,8 @@ let () = register "stackrun" (fun args ->
     let want = match Sys.getenv_opt "VERIF_PROP" with Some p -> S.lowercase_ascii p | None -> "all" in
     let checks = [ ("c04", c04_ok); ("c05", c05_ok); ("c06", c06_ok); ("c08", c08_ok); ("c09", c09_ok); ("c10", c10_ok); ("c16", c16_ok) ] in
     let bad = L.filter_map (fun (n, f) -> if (want = "all" || want = n) && not (f tr) then Some n else None) checks in
+    (* C09 read strictly fails where a stale Add's reload unlinked unlisted tables: a recorded finding *)
+    let bad = L.map (fun n -> if n = "c09" && c09_ok_gc tr then "c09-gc-only" else n) bad in
     if bad = [] then "ok" else "bad:" ^ S.concat "," bad in
   (model, oracle))
 
